@@ -74,7 +74,10 @@ def run(ctx):
                 continue
             iso = json.loads(ir)
             parse, batches = rl.real_batches(rep)
-            offered = parse + [r for _, _, rs in batches for r in rs]
+            batches, main_real = rl.split_main(batches)      # the batch of the main component (since 1121aa8), None if there is none
+            offered = parse + [r for _, _, rs in batches for r in rs] + (main_real or [])
+            stats["main component batches"] += 1 if main_real is not None else 0
+            stats["main component reports"] += len(main_real or [])
             stats["projects"] += 1
             stats["definitions"] += len(batches)
             stats["offered reports"] += len(offered)
@@ -87,6 +90,7 @@ def run(ctx):
                 want.update(rl.rkey(r) for r in d["gen"])
                 if d["ok"]:
                     want.update(rl.rkey(r) for r in d["passes"])
+            want.update(rl.rkey(r) for r in (iso.get("main") or []))
             got = collections.Counter(rl.rkey(r) for r in offered)
             analysed = sorted(n for _, n, _ in batches)
             # independent of the parser's bookkeeping: every template / function textually defined in a file named on the command
@@ -97,8 +101,8 @@ def run(ctx):
                 ctx.violation("user-input-definitions", {"stage": "L1 every definition of a user-specified file is analysed", "files": p["files"], "inputs": p["inputs"],
                                                          "defined_in_named_files": textual, "analysed": analysed, "broken": None})
                 continue
-            if got != want or analysed != sorted(d["name"] for d in iso["defs"]):
-                missing = [r for r in iso["parse"] + [x for d in iso["defs"] for x in d["gen"] + d["passes"]] if got[rl.rkey(r)] < want[rl.rkey(r)]]
+            if got != want or analysed != sorted(d["name"] for d in iso["defs"]) or (main_real is None) != (iso.get("main") is None):
+                missing = [r for r in iso["parse"] + [x for d in iso["defs"] for x in d["gen"] + d["passes"]] + (iso.get("main") or []) if got[rl.rkey(r)] < want[rl.rkey(r)]]
                 ctx.violation("conservation", {"stage": "L1 conservation (offered = parse + per-definition reports, each once)",
                                                "files": p["files"], "inputs": p["inputs"],
                                                "lost_or_duplicated": [(r["id"], r["message"]) for r in missing][:10],
@@ -109,6 +113,8 @@ def run(ctx):
             order = [n for _, n, _ in batches]
             m = rl.parse_model(vlib.run_model([rl.model_line(iso, order, 0, [])])[0])
             real_b = [[rl.rtok(r).split("/") for r in parse]] + [[rl.rtok(r).split("/") for r in rs] for _, _, rs in batches]
+            if main_real is not None:
+                real_b.append([rl.rtok(r).split("/") for r in main_real])
             real_b = [["%s/%s/%s" % (t[0], t[1], t[4]) for t in b] for b in real_b]
             # the order of reports inside one batch depends on hash-map iteration inside the passes and is
             # not specified: batches are compared as multisets
